@@ -40,3 +40,17 @@ claim(
     "Trusted: the independent parser in acnverif/props/c17.py, which reads the same bundled JSON (published utility prices are not cross-checked); naive datetimes at one-second resolution.",
     "DESIGN.md 3/C17",
 )
+claim(
+    "C01",
+    "Hypothesis-generated whole scenarios (JSON specs -> build layer) vs. an independent reference model of the run loop; occupancy snapshot in every period through the post_charging_update override point; step bound for termination",
+    "Exploration: 500 (quick) / 40 000 (thorough) generated scenarios (1-6 stations of all EVSE classes, back-to-back reuse, simultaneous events, recompute events, five period lengths, max_recompute None/1/2/3/7, scripted/always-max/uncontrolled/greedy/round-robin schedulers, shuffled insertion). Checked: termination within last+1 periods, queue empty, stations vacant, event multiset exactly once each, order (time, unplug<plug-in<recompute), every event handled in its period, occupant of every station in every period, current only (and in the always-max family: whenever) connected.",
+    "Trusted: acnverif/scenario.py (build layer and Model); sessions on one station never overlap; continuous EVSEs have min_rate 0.",
+    "DESIGN.md 3/C01",
+)
+claim(
+    "C02",
+    "Hypothesis-generated whole simulations; three-way ledger relation (EV counter = integral of recorded rates = battery gain via JSON dump) and first-principles recomputation of peak / aggregate power / totals against the reference model's occupancy",
+    "Exploration: 400 (quick) / 30 000 (thorough) generated simulations with all battery models, generated noise draws, heterogeneous voltages, fractional periods and schedules addressing vacant stations; per session the three energy figures agree to 1e-9 relative; recorded rate exactly 0 wherever the model has no EV connected; peak, aggregate current/power and total energy recomputed from the rate matrix.",
+    "Trusted: acnverif/scenario.py Model for occupancy; tolerance 1e-9 relative (+1e-12, battery 1e-11*capacity absolute).",
+    "DESIGN.md 3/C02",
+)
